@@ -56,8 +56,13 @@ def _seek(ex, self, off=-1, whence=0):
         new = pos + off
     elif w == 2:
         if self.fields['__mode__'] != 'complete':
-            raise Unsupported('SEEK_END on a growing stream')
-        new = Length(data) + off
+            # a growing / wrapped source: its "end" is the end of what it holds right now -- somewhere between the
+            # position and the end of the eventual data (the caching wrapper: the end of its cache)
+            avail = ex.fresh('seek.end.available', I)
+            ex.assume(And(avail >= pos, avail <= Length(data)))
+            new = avail + off
+        else:
+            new = Length(data) + off
     else:
         raise Unsupported('symbolic whence')
     if not ex.choose(new >= 0, 'seek-nonneg'):
@@ -84,7 +89,10 @@ class PStream(PSort):
         ex.assume(And(pos >= 0, pos <= Length(data.z)))
         from pyvc.core import bytes_axiom
         ex.assume(bytes_axiom(data.z, name))
-        methods = {'read': _read, 'seek': _seek, 'tell': _tell}
+        methods = {'read': _read, 'seek': _seek, 'tell': _tell,
+                   # an in-memory stream is seekable; any other source may or may not say so (the caching wrapper does)
+                   'seekable': (lambda ex2, self: True) if self.mode == 'complete' else
+                   (lambda ex2, self: ex2.fresh('stream.says.seekable', BoolSort()))}
         methods.update(self.extra)
         return Obj('Stream', {'data': data, 'pos': pos, '__mode__': self.mode, 'eof_signalled': z3.BoolVal(False),
                     'none_seen': False},
